@@ -145,6 +145,7 @@ func (srv *Srv) flush(req *SrvReq) {
 	conn := req.Conn
 	tag := req.Tc.Oldtag
 	_ = PackRflush(req.Rc)
+	verifPoint("flush.enter", req)
 	conn.Lock()
 	r := conn.reqs[tag]
 	if r != nil {
@@ -153,6 +154,7 @@ func (srv *Srv) flush(req *SrvReq) {
 	}
 	conn.Unlock()
 
+	verifPoint("flush.linked", req)
 	if r == nil {
 		// there are no requests with that tag
 		req.Respond()
@@ -167,6 +169,7 @@ func (srv *Srv) flush(req *SrvReq) {
 	}
 	r.Unlock()
 
+	verifPoint("flush.decided", req)
 	if (status & (reqWork | reqSaved)) == 0 {
 		r.Respond()
 	} else {
